@@ -188,8 +188,9 @@ def run(chk):
     # the same exact cases in sessions whose LOCAL time zone is not UTC (from_unixtime_s gives a date-time in the local
     # zone): instants, durations and error kinds must not depend on it
     local_zone_runs = {}
+    zone_pass_lines = 450 if quick else len(lines)          # quick: the corpus and the first ~150 cases
     for z in (["Pacific/Chatham"] if quick else ["Pacific/Chatham", "America/St_Johns", "Asia/Kathmandu"]):
-        local_zone_runs[z] = common.run_harness(binary, "eval", lines, extra_args=("--tz", z))
+        local_zone_runs[z] = common.run_harness(binary, "eval", lines[:zone_pass_lines], extra_args=("--tz", z))
 
     fails = []          # property violations on the implementation (with input)
 
